@@ -1711,6 +1711,18 @@ impl From<info::XmlNode<info::XmlAttribute>> for XmlAttr {
     }
 }
 
+impl XmlAttr {
+    /// The element this attribute belongs to; `None` while it is not attached to an element.
+    /// (`parent_node()` of an attribute is `None` by DOM Level 1; XPath needs the owner.)
+    pub fn owner_element(&self) -> Option<XmlElement> {
+        self.attribute
+            .borrow()
+            .owner_element()
+            .ok()
+            .map(XmlElement::from)
+    }
+}
+
 impl fmt::Debug for XmlAttr {
     fn fmt(&self, f: &mut fmt::Formatter<'_>) -> Result<(), fmt::Error> {
         write!(f, "XmlAttr {{ {} }}", self.name())
